@@ -256,6 +256,72 @@ def build_coq_property(stem, timeout=1800):
     return info
 
 
+def romea_closure(stem):
+    """the modules of this development that <stem> depends on (from coq_makefile's dependency file), stem included"""
+    deps = {}
+    dfile = os.path.join(COQ, ".Makefile.d")
+    if os.path.exists(dfile):
+        for l in open(dfile):
+            if ":" not in l:
+                continue
+            lhs, rhs = l.split(":", 1)
+            tg = [t for t in lhs.split() if t.endswith(".vo")]
+            if not tg:
+                continue
+            deps[tg[0][:-3]] = [t[:-3] for t in rhs.split() if t.endswith(".vo")]
+    seen, todo = [], [stem]
+    while todo:
+        m = todo.pop()
+        if m in seen:
+            continue
+        seen.append(m)
+        todo += deps.get(m, [])
+    return seen
+
+
+def run_coqchk(stem):
+    """independent re-check (coqchk) of every module of this development that the property file depends on; the
+    standard library and the installed third-party libraries are loaded without being re-checked (-norec).  The result
+    is cached on the hash of the .vo files involved."""
+    mods = romea_closure(stem)
+    h = hashlib.sha256()
+    for m in sorted(mods):
+        p = os.path.join(COQ, m + ".vo")
+        if os.path.exists(p):
+            h.update(open(p, "rb").read())
+    key = h.hexdigest()
+    cdir = os.path.join(BUILD, "coqchk")
+    os.makedirs(cdir, exist_ok=True)
+    cfile = os.path.join(cdir, stem + ".json")
+    if os.path.exists(cfile):
+        try:
+            c = json.load(open(cfile))
+            if c.get("key") == key and c.get("rc") == 0:
+                c["cached"] = True
+                return c
+        except Exception:  # noqa
+            pass
+    args = ["coqchk", "-silent", "-o", "-Q", COQ, "Romea"]
+    for m in mods:
+        args += ["-norec", "Romea." + m.replace("/", ".")]
+    with Lock("coq"):
+        rc, o, e = sh(args, cwd=COQ, timeout=int(os.environ.get("VERIF_COQCHK_TIMEOUT", "1200")))
+    axs, seen_ax = [], False
+    for l in (o + e).splitlines():
+        if "axioms:" in l.lower():
+            seen_ax = True
+            continue
+        if seen_ax and l.strip() and not l.startswith("*"):
+            axs.append(l.strip())
+    res = {"key": key, "rc": rc, "modules_checked": len(mods), "axioms": axs[:60], "tail": (o + e)[-600:] if rc != 0 else "",
+           "cmd": "coqchk -silent -o -Q coq Romea -norec <%d modules of this development>" % len(mods)}
+    if rc == -9:
+        res["note"] = "coqchk did not finish within its time limit (not counted as a failure; the .vo build is the check)"
+    if rc == 0:
+        json.dump(res, open(cfile, "w"))
+    return res
+
+
 FORBIDDEN = re.compile(r"\b(Admitted|admit|Axiom|Axioms|Parameter|Parameters|Conjecture|Admit Obligations|"
                        r"Unset Guard Checking|Unset Positivity Checking|Unset Universe Checking|bypass_check|"
                        r"type-in-type|impredicative-set)\b")
@@ -554,23 +620,9 @@ def run_check(pid, tier="quick", seed=None, replay=None):
         # thorough tier: independent re-check of the compiled proofs, and a sanitizer build of the harness
         if tier == "thorough" and not replay:
             if coq["ok"]:
-                stem = chk.get("coq", "Properties_" + pid)
-                with Lock("coq"):
-                    rcq, oq, eq = sh(["coqchk", "-silent", "-o", "-Q", COQ, "Romea", "Romea." + stem], cwd=COQ,
-                                     timeout=int(os.environ.get("VERIF_COQCHK_TIMEOUT", "600")))
-                axs = []
-                seen_ax = False
-                for l in (oq + eq).splitlines():
-                    if "axioms:" in l.lower() or "Axioms:" in l:
-                        seen_ax = True
-                        continue
-                    if seen_ax and l.strip() and not l.startswith("*"):
-                        axs.append(l.strip())
-                coq["coqchk"] = {"rc": rcq, "axioms": axs[:60]}
-                if rcq == -9:
-                    coq["coqchk"]["note"] = "coqchk did not finish within its time limit (not counted as a failure; the .vo build is the check)"
-                elif rcq != 0:
-                    res.tie_failures.append(("coqchk", "coqchk rejected %s: %s" % (stem, (oq + eq)[-800:])))
+                coq["coqchk"] = run_coqchk(chk.get("coq", "Properties_" + pid))
+                if coq["coqchk"].get("rc") not in (0, -9):
+                    res.tie_failures.append(("coqchk", "coqchk rejected %s: %s" % (chk.get("coq", "Properties_" + pid), coq["coqchk"].get("tail", ""))))
             if chk.get("harness") and exe:
                 sflags = ["-std=c++17", "-O1", "-g", "-DNDEBUG", "-D" + GUARD, "-w", "-fsanitize=address,undefined",
                           "-fno-sanitize-recover=all", "-I" + os.path.join(REPO, "include"), "-I/usr/include/eigen3",
